@@ -341,7 +341,7 @@ META = {
     'required_covers': ['nontrivial', 'granted', 'cancelled', 'evicted', 'preempted', 'with-exit-by-exception', 'external-interrupt'],
     'bounds': {'quick': 'Resource / PriorityResource / PreemptiveResource, capacity 1-2, 2-3 users with scripts from {hold, give up after w '
                         '(cancel), with-block, with-block left by exception, double release, release of a cancelled request}; all '
-                        'instants, priorities (Int) and preempt flags symbolic',
+                        'instants, priorities (Int) and preempt flags symbolic; eviction during another request\'s cancel; fractional priorities; 7-user waiting lines (mostly concrete); cancel + with-exit; with-block left by a BaseException',
                'thorough': '3-4 users, 27 script combinations per resource kind'},
     'assumptions': ['each user holds or awaits at most one request at a time (precondition of the statement)'],
     'stubs': [],
